@@ -126,6 +126,12 @@ func cmdCheck(args []string) int {
 	if atomic.LoadInt32(&e.stop) == 0 && os.Getenv("VERIF_NOVALIDATE") == "" {
 		e.validateSamples(prop)
 		for _, m := range e.tracesMismatch {
+			if strings.Contains(m, "the native run says \"timeout\"") {
+				// the native build/run did not finish in its time limit (cold build cache, busy machine): that sample is
+				// simply not validated - it says nothing about the translator and must not fail the check
+				fmt.Fprintln(os.Stderr, "symgo: translator validation skipped (native run timed out): "+m)
+				continue
+			}
 			e.inconcl["translator validation: "+m]++
 		}
 	}
